@@ -556,7 +556,9 @@ def addGroupEntity (sys : Sys) (dp : Option String) (g : GroupKind) (personsIds 
         | none => .error .other
         | some r0 =>
           let gids' := gids ++ acc.toAlloc
-          let own := acc.toAlloc.map (fun pid => (⟨personsIds.idxOf pid, gids'.idxOf pid, r0⟩ : MWrite))
+          -- repair C12i: the own-group is located by its position, not by looking the id up
+          let own := (List.zipIdx acc.toAlloc).map (fun (pid, off) =>
+            (⟨personsIds.idxOf pid, gids.length + off, r0⟩ : MWrite))
           let mr := applyM personsIds.length (acc.mws ++ own)
           .ok (⟨g.key, g.plural, false, gids', mr.1, mr.2⟩, padBuffer sys g.key gids'.length buf1)
 
@@ -665,8 +667,8 @@ def parseAxis (d : Doc) : R Axis :=
       | _, _ => .error .unmodelled
     | _, _, _, _ => .error .unmodelled
 
-/-- `axes[0]` entirely (parallel axes), of every further list only its first axis
-(`add_perpendicular_axis(axis[0])`) -/
+/-- the lists of parallel axes, one per perpendicular dimension (repair C12k: every axis of every
+list) -/
 def parseAxes (d : Doc) : R (List (List Axis)) :=
   match d.asArr? with
   | none => .error .unmodelled
@@ -680,7 +682,7 @@ def parseAxes (d : Doc) : R (List (List Axis)) :=
       | .error e => .error e
       | .ok par =>
         match mapE (fun (dd : Doc) => match dd.asArr? with
-            | some (x :: _) => (parseAxis x).map (fun ax => [ax])
+            | some (x :: xs) => mapE parseAxis (x :: xs)
             | some [] => .error .unmodelled
             | none => .error .unmodelled) rest with
         | .error e => .error e
@@ -806,10 +808,34 @@ abbrev Store := List ((String × Period) × Vec)
 `situation` stands for `PeriodMismatchError` -/
 abbrev SetInput := Store → Var → Nat → Period → Vec → R Store
 
-/-- the sort key of `finalize_variables_init` (repair C12b): `(unit_weight, size)` -/
-def periodLe (p q : Period) : Bool :=
-  decide (unitWeight p.unit < unitWeight q.unit) ||
-    (decide (unitWeight p.unit = unitWeight q.unit) && decide (p.size ≤ q.size))
+/-- the sort key of `finalize_variables_init` (repairs C12b, C12l):
+`(inf if eternity else size_in_days, unit_weight)`; `none` is `float("inf")` -/
+def flushKey (p : Period) : R (Option Int × Int) :=
+  if p.unit = .eternity then .ok (none, unitWeight p.unit)
+  else match p.sizeInDays with
+    | .ok d => .ok (some d, unitWeight p.unit)
+    | .error _ => .error .other
+
+/-- tuple order of the keys -/
+def keyLe (a b : Option Int × Int) : Bool :=
+  match a.1, b.1 with
+  | none, none => decide (a.2 ≤ b.2)
+  | none, some _ => false
+  | some _, none => true
+  | some x, some y => decide (x < y) || (decide (x = y) && decide (a.2 ≤ b.2))
+
+/-- `p` is not flushed after `q` -/
+def flushLe (p q : Period) : Bool :=
+  match flushKey p, flushKey q with
+  | .ok a, .ok b => keyLe a b
+  | .ok _, .error _ => false
+  | .error _, .ok _ => false
+  | .error _, .error _ => false
+
+def keyedPeriod (p : Period) : R ((Option Int × Int) × Period) :=
+  match flushKey p with
+  | .ok k => .ok (k, p)
+  | .error e => .error e
 
 /-- stable insertion: `x` goes before the first element it is not greater than -/
 def insertBy {α : Type} (le : α → α → Bool) (x : α) : List α → List α
@@ -830,13 +856,19 @@ def bufferVars (buf : Buffer) : List String := dedup (buf.map (fun e => e.1.1))
 def varKeys (buf : Buffer) (v : String) : List (List Char) :=
   (buf.filter (fun e => e.1.1 = v)).map (fun e => e.1.2)
 
-/-- `[periods.period(s) for s in buffer]` then `sorted(..., key=(unit_weight, size))` -/
+def parseBuffered (ck : List Char) : R Period :=
+  match parsePeriod ck with
+  | .ok p => .ok p
+  | .error _ => .error .other
+
+/-- `[periods.period(s) for s in buffer]` then `sorted(..., key=…)` (stable) -/
 def sortedPeriods (buf : Buffer) (v : String) : R (List Period) :=
-  match mapE (fun ck => match parsePeriod ck with
-      | .ok p => (.ok p : R Period)
-      | .error _ => .error .other) (varKeys buf v) with
+  match mapE parseBuffered (varKeys buf v) with
   | .error e => .error e
-  | .ok ps => .ok (sortBy periodLe ps)
+  | .ok ps =>
+    match mapE keyedPeriod ps with
+    | .error e => .error e
+    | .ok kps => .ok ((sortBy (fun a b => keyLe a.1 b.1) kps).map (fun kp => kp.2))
 
 /-- `values = buffer[str(period)]; array = tile(values, count // len(values)); set_input` -/
 def callStep (si : SetInput) (buf : Buffer) (var : Var) (count : Nat) (store : Store) (q : Period) : R Store :=
@@ -890,18 +922,17 @@ def buildFromEntities (sys : Sys) (dp : Option String) (si : SetInput) (kvs : Li
         | .error e => .error e
         | .ok st' => finalize sys si st'
 
-/-- `explicit_singular_entities` : only entity keys survive; `entity: {...}` becomes
-`entities: {entity: {...}}` and overrides a plural entry of the same entity -/
-def explicitSingular (sys : Sys) (kvs : List (DKey × Doc)) : List (DKey × Doc) :=
-  (sys.singulars.filterMap (fun (sp : String × String) => (lookupS sp.1 kvs).map (fun d =>
-      (DKey.s sp.2, Doc.obj [(DKey.s sp.1, d)])))) ++
-  kvs.filter (fun kv => match kv.1 with
-    | .s v => sys.plurals.contains v
-    | .i _ => false)
-
 def keyIn (l : List String) : DKey → Bool
   | .s v => l.contains v
   | .i _ => false
+
+/-- `explicit_singular_entities` (repair C12gh: every key that is not a singular entity key is kept,
+`axes` and unknown keys included) : `entity: {...}` becomes `entities: {entity: {...}}` and
+overrides a plural entry of the same entity -/
+def explicitSingular (sys : Sys) (kvs : List (DKey × Doc)) : List (DKey × Doc) :=
+  (sys.singulars.filterMap (fun (sp : String × String) => (lookupS sp.1 kvs).map (fun d =>
+      (DKey.s sp.2, Doc.obj [(DKey.s sp.1, d)])))) ++
+  kvs.filter (fun kv => !keyIn (sys.singulars.map (·.1)) kv.1)
 
 /-- `_person_count` -/
 def personCount (kvs : List (DKey × Doc)) : R Nat :=
